@@ -1605,6 +1605,37 @@ fn gen_mid_junk(r: &mut Rng) -> RScenario {
     }
 }
 
+/// Many interchangeable repairs converging on one configuration: 40-140 keyword tokens that are
+/// alternatives of one rule, then a token that must follow; the input lacks the keyword (and
+/// sometimes what follows it), so every keyword is a minimum-cost insertion and all of them are
+/// merged into one search node before the next repair.
+fn gen_wide_alternatives(r: &mut Rng) -> RScenario {
+    let n = 40 + r.below(101) as usize;
+    let mut grammar = String::from("%start R0\n%%\nR0: R1 't0' | R1 't0' 't1' R0;\nR1:");
+    for i in 0..n {
+        grammar.push_str(&format!("{} 't{}'", if i == 0 { "" } else { " |" }, i + 2));
+    }
+    grammar.push_str(";\n");
+    let tokens: Vec<String> = match r.below(3) {
+        0 => vec![],
+        1 => vec!["t0".into()],
+        _ => vec!["t0".into(), "t1".into(), "t0".into()],
+    };
+    RScenario {
+        origin: "wide-alternatives".into(),
+        grammar,
+        gaps: vec![],
+        tokens,
+        costs: BTreeMap::new(),
+        hash_seed: r.next(),
+        clock: ClockPolicy { tick_ns: 20_000, jumps: vec![] },
+        policy_class: "tick".into(),
+        base_reads: 0,
+        zero_width: vec![],
+        lex_error: None,
+    }
+}
+
 /// Parse stacks deeper than the ranking window when the error is met: 260-700 openers, then the
 /// innermost item, then none / some / all-but-a-few of the closers, so that the cheapest repair
 /// has to unwind (or complete) hundreds of stack entries.
@@ -1710,6 +1741,9 @@ pub fn gen_base(r: &mut Rng, gp: &GenParams) -> Option<RScenario> {
     }
     if which == 95 && r.chance(25) {
         return Some(gen_deep_nest(r));
+    }
+    if which == 94 && r.chance(25) {
+        return Some(gen_wide_alternatives(r));
     }
     let (origin, grammar) = if which < 12 {
         let (n, g) = *r.pick(gram::CORPUS);
